@@ -670,12 +670,12 @@ def config_stream(chk, R, wd):
     import io
     from supervisor.options import ServerOptions
     from supervisor.process import Subprocess
-    from supervisor.dispatchers import POutputDispatcher
+    from supervisor.dispatchers import POutputDispatcher, PEventListenerDispatcher
     from supervisor import events, loggers
     cases, meta = [], []
     d = os.path.join(wd, 'conf')
     os.makedirs(d, exist_ok=True)
-    mbs = [None, '0', '1', '100', '1KB', '2MB']
+    mbs = [None, '0', '1', '100', '1KB', '2MB', '3kb', '2mb', '1GB', '2gb', '1Gb']
     bks = [None, '0', '1', '3', '10']
     combos = list(itertools.product(mbs, bks))
 
@@ -702,7 +702,7 @@ def config_stream(chk, R, wd):
 
     for i, (mb, bk) in enumerate(combos):
         pmb, pbk = combos[(i * 7 + 3) % len(combos)]       # stdout of the program
-        emb, ebk = combos[(i * 11 + 5) % len(combos)]      # stderr of the program
+        emb, ebk = combos[(i * 13 + 5) % len(combos)]      # stderr of the program
         for source in ('file', 'cmdline'):
             if source == 'cmdline' and (mb is None and bk is None):
                 continue
@@ -745,6 +745,9 @@ def config_stream(chk, R, wd):
                     dout = POutputDispatcher(proc, events.ProcessCommunicationStdoutEvent, 5)
                     derr = POutputDispatcher(proc, events.ProcessCommunicationStderrEvent, 7)
                     opened += dout.normallog.handlers + derr.normallog.handlers
+                    # an event listener's stdout log is built by PEventListenerDispatcher itself: same rule
+                    dlis = PEventListenerDispatcher(Subprocess(pconfig), 'stdout', 9)
+                    opened += dlis.childlog.handlers
                 detail = {'config': text, 'args': args[2:]}
                 cm = mb if source == 'file' else (mb if mb is not None else '7')
                 cb = bk if source == 'file' else (bk if bk is not None else '7')
@@ -752,6 +755,7 @@ def config_stream(chk, R, wd):
                 if source == 'file':
                     record('stdout', pmb, pbk, _observe_handler(dout.normallog.handlers[0]), detail)
                     record('stderr', emb, ebk, _observe_handler(derr.normallog.handlers[0]), detail)
+                    record('listener_stdout', pmb, pbk, _observe_handler(dlis.childlog.handlers[0]), detail)
             finally:
                 for h in opened:
                     try:
@@ -799,7 +803,7 @@ def activity_stream(chk, R, wd):
         if 'file' not in order and 'rot' not in order:
             continue
         for opname in ('clearLog', 'reopenlogs', 'move_reopenlogs', 'move_clearLog', 'move_reopenlogs_restarting',
-                       'move_reopenlogs_shutdown'):
+                       'move_reopenlogs_shutdown', 'movecreate_reopenlogs'):
             n_scripts += 1
             d = os.path.join(wd, 'act')
             shutil.rmtree(d, ignore_errors=True)
@@ -869,6 +873,15 @@ def activity_stream(chk, R, wd):
                     logger.info('x' * 30 + '\n')
                     drain()
                     name = opname
+                    if name.startswith('movecreate_'):
+                        # logrotate's default `create`: rename, then an EMPTY file is put at the path, then SIGUSR2
+                        for k, p_ in paths.items():
+                            os.rename(p_, os.path.join(d, 'moved', k))
+                            timeline.append(('d', k))
+                            open(p_, 'wb').close()
+                            timeline.append(('x', k))
+                        drain()
+                        name = name[len('movecreate_'):]
                     if name.startswith('move_'):
                         for k, p_ in paths.items():
                             os.rename(p_, os.path.join(d, 'moved', k))
@@ -1175,6 +1188,104 @@ def blocked_stream(chk, R, wd):
     return n_scripts
 
 
+
+# ---- stream 10: a transient open() failure when the handler is created over an existing log
+
+def create_failure_stream(chk, R, wd):
+    """The first open() of a new handler fails with a non-ESPIPE errno (EMFILE, ENOMEM: a respawn while
+    descriptors are short).  Whatever the caller is told, the existing log must not be truncated; a
+    later creation must append to it."""
+    import errno
+    import shutil
+    import supervisor.loggers as L
+    cases, meta = [], []
+    n = 0
+    for (mb, bk) in ((0, 0), (0, 3), (40, 1), (1000, 0)):
+        for eno in (errno.EMFILE, errno.ENOMEM, errno.EACCES):
+            n += 1
+            d = os.path.join(wd, 'createfail')
+            shutil.rmtree(d, ignore_errors=True)
+            os.makedirs(d)
+            base = os.path.join(d, 'log')
+            gen = R.Bytes()
+            hist, problems = [], []
+            handlers = []
+
+            def snap():
+                return R.snapshot(d, base)
+            try:
+                with R.quiet_stderr():
+                    lg = L.getLogger()
+                    L.handle_file(lg, base, '%(message)s', rotating=not not mb, maxbytes=mb, backups=bk)
+                    handlers += lg.handlers
+                    old = list(gen.take(25))
+                    lg.info(bytes(old))
+                    hist.append((('w', old), snap()))
+                    for h in lg.handlers:
+                        h.close()                       # the process exited; its dispatchers are gone
+                    state = {'left': 1}
+
+                    def failing_open(*a, **k):
+                        if state['left']:
+                            state['left'] -= 1
+                            raise OSError(eno, os.strerror(eno))
+                        return open(*a, **k)
+                    L.open = failing_open               # seen by FileHandler.__init__ / reopen before the builtin
+                    try:
+                        lg2 = L.getLogger()
+                        try:
+                            L.handle_file(lg2, base, '%(message)s', rotating=not not mb, maxbytes=mb, backups=bk)
+                            handlers += lg2.handlers
+                            told = 'created'
+                        except OSError:
+                            told = 'raised'
+                    finally:
+                        del L.open
+                    s_ = snap()
+                    if not (isinstance(s_, dict) and s_.get(0) == bytes(old)):
+                        problems.append('a failed open() (%s) while creating the handler left the existing log with %r bytes '
+                                        'instead of its %d (the caller was told: %s)'
+                                        % (errno.errorcode[eno], len(s_.get(0, b'')) if isinstance(s_, dict) else None,
+                                           len(old), told))
+                    for h in handlers[1:]:
+                        h.close()
+                    lg3 = L.getLogger()
+                    L.handle_file(lg3, base, '%(message)s', rotating=not not mb, maxbytes=mb, backups=bk)
+                    handlers += lg3.handlers
+                    hist.append((('r',), snap()))
+                    new = list(gen.take(10))
+                    lg3.info(bytes(new))
+                    hist.append((('w', new), snap()))
+            except Exception as e:
+                problems.append('exception: %r' % (e,))
+            finally:
+                if hasattr(L, 'open') and 'open' in L.__dict__:
+                    del L.open
+                with R.quiet_stderr():
+                    for h in handlers:
+                        try:
+                            h.close()
+                        except Exception:
+                            pass
+            chk.dist('create_failure:%s' % errno.errorcode[eno])
+            for pr in problems[:1]:
+                chk.violation(_j({'kind': 'C19 fails on the implementation (open failing at handler creation)', 'what': pr,
+                                  'maxbytes': mb, 'backups': bk, 'errno': errno.errorcode[eno],
+                                  'history': [[list(o), sn] for o, sn in hist]}))
+            cases.append('(%d,%d,[%s])' % (mb, bk, ';'.join(
+                '(%s,%s)' % (op_term(o), 'Some (%s)' % snap_term(sn) if isinstance(sn, dict) else 'None') for o, sn in hist)))
+            meta.append((mb, bk, errno.errorcode[eno]))
+            shutil.rmtree(d, ignore_errors=True)
+    bad, errs = vlib.coq_compare(IMPORTS, 'Z * Z * list (op * option snap)', 'check_history_opt', cases, wd,
+                                 tag='createfail', shard=60, preamble=PRE)
+    for e in errs:
+        chk.violation({'kind': 'model evaluation failed', 'part': 'create failure', 'error': e}, nofail=True)
+    for i in bad[:5]:
+        chk.violation(_j({'kind': 'model and implementation disagree', 'part': 'handler creation after a failed open()',
+                          'case': meta[i], 'coq_case': cases[i][:3000]}), nofail=True)
+    return n
+
+
 # ------------------------------------------------------------------- the run
 
 WITNESS = dict(n=2, mb=10, bk=2, sizes=[4] * 12)      # DESIGN: alternating 4-byte writes
@@ -1457,6 +1568,7 @@ def _run(chk, wd, proved):
     n_act_scripts, n_act = activity_stream(chk, R, wd)
     n_outage = outage_stream(chk, R, wd)
     n_outage += blocked_stream(chk, R, wd)
+    n_outage += create_failure_stream(chk, R, wd)
     chk.note('t_config_activity_outage_done=%.1f' % (__import__('time').time() - chk.t0))
     if shared_hits:
         chk.known_finding('C19-shared', 'more than one rotating handler on one path (stdout and stderr, or two logs, configured '
